@@ -292,6 +292,15 @@ def appendAfterRestart (cfg : Nat) (rec : Bytes) (dat : Option Bytes) (more : Li
   let ws := groups.flatten ++ w.flush.1
   ws.foldl applyW (openAppend rec, dat.getD [])
 
+/-- `Flush` when the write of the record buffer fails (aof.go 517–519): both buffers are dropped. -/
+def Wr.flushFail (w : Wr) : Wr := { w with wbuf := [], dwbuf := [] }
+
+/-- A fresh file: `recsA` are written, the next `Flush` fails at the record write, then `recsB` are written, flushed, closed. -/
+def failedFlushThenWrite (cfg : Nat) (recsA recsB : List Rec) : Bytes × Bytes :=
+  let (g1, w1) := Wr.writeAll ⟨fileBufSize cfg, [], []⟩ recsA
+  let (g2, w2) := Wr.writeAll w1.flushFail recsB
+  (g1.flatten ++ g2.flatten ++ w2.flush.1).foldl applyW (headerBytes, [])
+
 /-- The (record file size, value file size) after the open, after each writer call and after the final flush
 (consecutive duplicates removed) — what the harness observes with `stat`. -/
 def writeSizes (cfg : Nat) (recs : List Rec) : List (Nat × Nat) :=
@@ -624,6 +633,7 @@ structure JHold where
   rcount : Nat
   eflag : Nat               -- unit flags only (0x4440)
   deadline : Option Int     -- `none` = unlimited
+  tflag : Nat               -- TimeoutFlag bits a record carries: 0x10 Rcount-is-priority, 0x1000 require-ack
   deriving DecidableEq, Repr
 
 structure JState where
@@ -645,8 +655,12 @@ def JHold.is (h : JHold) (db key id : Nat) : Bool := h.db == db && h.key == key 
 
 def JState.get (st : JState) (db key id : Nat) : Option JHold := st.holds.find? (·.is db key id)
 
+/-- `HandleLoad`: the TimeoutFlag of the replayed command comes from the record's aof flags. -/
+def JRec.tflag (r : JRec) : Nat :=
+  (if r.aofFlag &&& 0x1000 ≠ 0 then 0x1000 else 0) ||| (if r.aofFlag &&& 0x10 ≠ 0 then 0x10 else 0)
+
 def JRec.terms (r : JRec) (depth : Nat) : JHold :=
-  ⟨r.db, r.key, r.id, depth, r.count, r.rcount, r.eflag &&& 0x4440, r.deadline⟩
+  ⟨r.db, r.key, r.id, depth, r.count, r.rcount, r.eflag &&& 0x4440, r.deadline, r.tflag⟩
 
 def JState.setValue (st : JState) (db key : Nat) (v : Bytes) : JState :=
   { st with values := st.values.filter (fun p => p.1 ≠ (db, key)) ++ [((db, key), v)] }
@@ -703,6 +717,7 @@ structure RHold where
   eflag : Nat               -- full ExpriedFlag of the current command
   deadline : Option Int     -- `none` = 0x7fff…ffff
   long : Bool               -- sits in the long expiry table
+  tflag : Nat               -- TimeoutFlag of the current command (0x10 Rcount-is-priority, 0x1000 require-ack)
   deriving DecidableEq, Repr
 
 structure RKey where
@@ -753,7 +768,7 @@ def RState.settle (st : RState) (k : RKey) : RState :=
 def rearm (now : Int) (h : RHold) (r : JRec) (e' depth : Nat) : RHold :=
   let d := if r.eflag &&& EXPRIED_FLAG_UNLIMITED_EXPRIED_TIME ≠ 0 ∧ e' = 0xffff then h.deadline else engineDeadline r.eflag e' now
   let long := if h.long then (if isMsFlag r.eflag then false else if d ≠ h.deadline then placeLong r.eflag now d else true) else false
-  { h with depth := depth, count := r.count, rcount := r.rcount, eflag := r.eflag, deadline := d, long := long }
+  { h with depth := depth, count := r.count, rcount := r.rcount, eflag := r.eflag, deadline := d, long := long, tflag := r.tflag }
 
 inductive Treat
   | skipped          -- dropped by LoadAofFile's expired-record filter
@@ -777,13 +792,13 @@ def reloadStep (now : Int) (st : RState) (r : JRec) : RState × Treat :=
         if r.flag &&& 0x02 ≠ 0 then
           let k1 := applyFrame k r.data
           let eq := Slock.Gen.K.checkLockedEqual now (h.deadline.getD maxInt64) r.eflag e'
-            (Slock.Gen.K.checkLockedCountEqual r.count r.rcount 0 h.count h.rcount 0)
+            (Slock.Gen.K.checkLockedCountEqual r.count r.rcount r.tflag h.count h.rcount h.tflag)
           if eq then (st.setKey k1, .updateRefused)
           else
             let h' := rearm now h r e' h.depth
             (st.setKey { k1 with holds := k1.holds.map (fun x => if x.id = r.id then h' else x),
                                  unsure := k1.unsure || (isMsFlag h.eflag != isMsFlag r.eflag) }, .updated)
-        else if h.depth < 255 ∧ h.depth ≤ r.rcount then
+        else if h.depth < 255 ∧ h.depth ≤ r.rcount ∧ r.tflag &&& 0x10 = 0 then
           if e' = 0 then (st, .zeroNoHold)
           else
             let k1 := applyFrame k r.data
@@ -793,10 +808,10 @@ def reloadStep (now : Int) (st : RState) (r : JRec) : RState × Treat :=
         else (st, .levelRefused)
       | none =>
         let cur := (k.holds.head?.map (·.count)).getD 0
-        if Slock.Gen.K.doLock k.locked cur r.count 0 0 then
+        if Slock.Gen.K.doLock k.locked cur r.count r.tflag 0 then
           if e' > 0 then
             let d := engineDeadline r.eflag e' now
-            let k1 := applyFrame { k with holds := k.holds ++ [⟨r.id, 1, r.count, r.rcount, r.eflag, d, placeLong r.eflag now d⟩] } r.data
+            let k1 := applyFrame { k with holds := k.holds ++ [⟨r.id, 1, r.count, r.rcount, r.eflag, d, placeLong r.eflag now d, r.tflag⟩] } r.data
             (st.setKey k1, .newHold)
           else
             (st.settle (applyFrame k r.data), .zeroNoHold)
@@ -806,7 +821,7 @@ def reloadStep (now : Int) (st : RState) (r : JRec) : RState × Treat :=
       else match k.holds.find? (·.id = r.id) with
         | none => (st, .unlockNoHold)
         | some h =>
-          if h.depth > 1 ∧ r.rcount > 0 then
+          if h.depth > 1 ∧ r.rcount > 0 ∧ r.tflag &&& 0x10 = 0 then
             let k1 := applyFrame k r.data
             (st.setKey { k1 with holds := k1.holds.map (fun x => if x.id = r.id then { x with depth := x.depth - 1 } else x) }, .unlockedOne)
           else
